@@ -45,9 +45,11 @@ Weakest readings (also reported as assumptions)
             compared where the leading argument is non-NULL; the rows where it is NULL still count in
             the prefix sum of every later row;
           * grouped first(balance) / last(balance): the running balance runs over the selected rows in scan
-            order, not per group; first() is only generated next to last(balance) in the same statement
-            (first() stops evaluating its operand after a group's first row and the column only advances
-            when evaluated, so alone it would not consult the balance on every selected row);
+            order, not per group; in that statement group first() stands next to last(balance), so every
+            selected row consults the balance;
+          * balance referenced ONLY lazily (first(balance) alone; later operand of coalesce / OR / AND in a
+            target): a separate statement group, one fingerprint per shape `balance:lazy-reference|<shape>`;
+            wherever the reference is evaluated it must be the prefix sum over all selected rows so far;
           * the value of the intervening IN target is compared only when the subquery returns rows
             (IN over an empty subquery is C08's business);
           * Inventories are compared with beancount's Inventory equality (lots keyed by currency+cost,
@@ -762,6 +764,79 @@ def check_balgrp(led, wname, fname, gname, shape, stats):
 
 
 # ---------------------------------------------------------------------------------------------
+# (iv) balance referenced ONLY lazily: the reference is not evaluated on every selected row (first() after a
+# group's first row; the later operand of coalesce / OR / AND skipped by short-circuit).  Wherever the
+# reference IS evaluated its value must still be the prefix sum over all selected rows so far.
+# One fingerprint per shape: balance:lazy-reference|<shape>.
+def _usd_ge0(inv):
+    return inv.get_currency_units('USD').number >= 0
+
+
+LAZY_GROUPS = ['account', 'currency', 'root', 'month']
+LAZY = {
+    'coalesce': ("coalesce(cost_number, number(only('HOOL', balance)))",
+                 lambda: F('coalesce', col('cost_number'), F('number', F('only', C('HOOL'), col('balance')))),
+                 lambda t, p, pre: p.cost.number if p.cost is not None else pre.get_currency_units('HOOL').number),
+    'or': ("number > 0 OR number(only('USD', balance)) >= 0",
+           lambda: A.Or([A.Greater(col('number'), C(0)), A.GreaterEq(F('number', F('only', C('USD'), col('balance'))), C(0))]),
+           lambda t, p, pre: or3(p.units.number > 0, _usd_ge0(pre))),
+    'and': ("number < 0 AND number(only('USD', balance)) >= 0",
+            lambda: A.And([A.Less(col('number'), C(0)), A.GreaterEq(F('number', F('only', C('USD'), col('balance'))), C(0))]),
+            lambda t, p, pre: and3(p.units.number < 0, _usd_ge0(pre))),
+}
+
+
+def check_lazy(led, wname, shape, gname, stats):
+    fp = f'balance:lazy-reference|{shape}'
+    sel = led.selected(wname, 'none')
+    out = []
+    if shape == 'first':
+        keys = GROUPS[gname][0]()
+        nk = len(keys)
+        targets = [(k, f'k{i}') for i, k in enumerate(keys)] + [(F('first', col('balance')), 'f')]
+        stmt = select(targets, where=WHERE[wname][0](), group_by=A.GroupBy(list(range(1, nk + 1)), None))
+        desc = bql(GROUP_TEXT[gname] + ', first(balance)', wname, 'none', gname)
+    else:
+        text, mk, ref = LAZY[shape]
+        stmt = select([(mk(), 'c0')], where=WHERE[wname][0]())
+        desc = bql(text, wname)
+    try:
+        got = led.conn.execute(stmt).fetchall()
+    except Exception as e:
+        return [(f'crash:{crash_fingerprint(e)}', f'{desc}: {type(e).__name__}: {e}')]
+    stats['queries'] += 1
+    stats['lazy_reference_statements'] += 1
+    pre = Inv()
+    if shape == 'first':
+        keyf = GROUPS[gname][1]
+        firsts = {}
+        for i in sel:
+            t, p = led.rows[i]
+            pre.add_position(p)
+            firsts.setdefault(keyf(t, p), copy.copy(pre))
+        gotmap = {tuple(r[:nk]): r[nk] for r in got}
+        if set(gotmap) != set(firsts) or len(got) != len(firsts):
+            return [('group:keys', f'{desc}: groups {sorted(gotmap, key=repr)!r}, expected {sorted(firsts, key=repr)!r}')]
+        for k, exp in firsts.items():
+            stats['cells'] += 1
+            if gotmap[k] != exp:
+                out.append((fp, f'{desc}: group {k!r} first(balance) = {show(gotmap[k])}, expected {show(exp)}: the prefix sum of position over ALL '
+                            f'selected rows up to and including the group\'s first row (balance is not evaluated on the other rows of a group)'))
+        return out
+    if len(got) != len(sel):
+        return [('balance:selection', f'{desc}: {len(got)} rows, reference selects {len(sel)}')]
+    for n, (i, r) in enumerate(zip(sel, got)):
+        t, p = led.rows[i]
+        pre.add_position(p)
+        exp = ref(t, p, pre)
+        stats['cells'] += 1
+        if r[0] != exp or (isinstance(exp, bool) and r[0] is not exp):
+            out.append((fp, f'{desc}: row {n} ({p.account} {pos_of(p)}) = {r[0]!r}, expected {exp!r} with balance = prefix sum of position over all '
+                        f'selected rows so far {show(pre)} (the reference is skipped on rows where the earlier operand decides)'))
+    return out
+
+
+# ---------------------------------------------------------------------------------------------
 # (v) balance consulted by WHERE on every scanned row
 def _usd(inv):
     return inv.get_currency_units('USD').number
@@ -841,6 +916,8 @@ def run_case(led, case, stats, fdates=None, total=None, totals=None):
         return check_balw(led, case['cond'], case['pattern'], stats)
     if kind == 'invsub':
         return check_invsub(led, case['where'], case['inner'], case['outer'], case['shape'], stats)
+    if kind == 'lazy':
+        return check_lazy(led, case['where'], case['shape'], case['group'], stats)
     if kind == 'balgrp':
         return check_balgrp(led, case['where'], case['from'], case['group'], case['shape'], stats)
     if kind == 'invtab':
@@ -917,6 +994,11 @@ def shard(shard_i, nshards, n, seed, tier):
                     for gname in gnames:
                         case = led.case('balgrp', where=wname, **{'from': fname}, group=gname, shape=shape)
                         emit(case, run_case(led, case, stats))
+        for wname in WHERE:
+            for shape, gnames in [('first', LAZY_GROUPS)] + [(sh, [None]) for sh in LAZY]:
+                for gname in gnames:
+                    case = led.case('lazy', where=wname, shape=shape, group=gname)
+                    emit(case, run_case(led, case, stats))
         for cname in BCOND:
             for pname in BPATTERNS:
                 case = led.case('balw', cond=cname, pattern=pname)
@@ -949,23 +1031,32 @@ def shard(shard_i, nshards, n, seed, tier):
 
 def minimise(violations, n):
     """Shards report in shard order; put, per fingerprint, the smallest ledger (shortest-first enumeration
-    order) exhibiting the same defect with the same statement in front."""
-    out, seen = [], set()
+    order) exhibiting the same defect in front: every kept case of the fingerprint is re-run with its own
+    statement on the smaller ledgers, and the overall smallest witness goes first."""
+    order = {seq: i for i, seq in enumerate(L.sequences(n))}
+    by_fp = {}
     for v in violations:
-        if v.fingerprint in seen:
-            out.append(v)
-            continue
-        seen.add(v.fingerprint)
-        for seq in L.sequences(len(v.case['seq'])):
-            if list(seq) == v.case['seq']:
-                break
-            if L.load(seq, v.case['seed'])[1]:
-                continue
-            small = [w for w in replay(dict(v.case, seq=list(seq))) if w.fingerprint == v.fingerprint]
-            if small:
-                v = small[0]
-                break
-        out.append(v)
+        by_fp.setdefault(v.fingerprint, []).append(v)
+    out = []
+    for fp, vs in by_fp.items():
+        best = src = None
+        for v0 in vs:
+            v = v0
+            for seq in L.sequences(len(v.case['seq'])):
+                if list(seq) == v.case['seq']:
+                    break
+                if best is not None and order[seq] >= order[tuple(best.case['seq'])]:
+                    break
+                if L.load(seq, v.case['seed'])[1]:
+                    continue
+                small = [w for w in replay(dict(v.case, seq=list(seq))) if w.fingerprint == fp]
+                if small:
+                    v = small[0]
+                    break
+            if best is None or order[tuple(v.case['seq'])] < order[tuple(best.case['seq'])]:
+                best, src = v, v0
+        out.append(best)
+        out.extend(v for v in vs if v is not src)
     return out
 
 
@@ -997,6 +1088,7 @@ def run(ctx):
         'rows_folded_by_reference': c['rows_folded'],
         'balance_references_compared': c['balance_refs'],
         'grouped_balance_statements_with_several_groups': c['grouped_balance_statements_with_several_groups'],
+        'lazy_reference_statements': c['lazy_reference_statements'],
         'balance_references_behind_a_NULL_argument': c['balance_refs_behind_null_argument'],
         'rows_scanned_with_balance_in_where': c['rows_scanned_with_balance'],
         'balance_in_where_cases_that_filter': c['balw_filtering_cases'],
